@@ -157,6 +157,19 @@ def check(rep, ctx):
                   message=f"`{m['stmt']}` hands out a mutable buffer ({m['name']}): an entity decoded through this path holds a bytearray -- "
                           f"hash() raises TypeError and the 'frozen' entity can be changed in place", file=m["file"], line=m["line"])
     rep.count(R_V, 1, instance="scan")
+    R_B = rep.rule("C15-constructed", "an instance created with __new__ (bypassing __init__) has every slot of its class stored before it is "
+                   "handed out", floor=0,
+                   necessary_because="a UUID built with UUID.__new__ and only `int` set has no `is_safe`: pickling or deep-copying the decoded "
+                                     "entity raises AttributeError")
+    ALL_ = [m.name for m in ctx.sm.by_prefix("kio") if not m.name.startswith("kio.schema.")]
+    for b in scan.bypassed_constructors(ctx, ALL_):
+        if b["missing"] is None:
+            raise AnalysisError(f"{b['function']} creates a {b['cls']} with __new__ at {b['file']}:{b['line']}; no slot table for that class")
+        rep.check(R_B, not b["missing"], construct=b["function"], stmt=b["stmt"],
+                  message=f"`{b['stmt']}` bypasses {b['cls']}.__init__ and stores only {b['stored']}: slot(s) {b['missing']} stay unset -- "
+                          f"copy.deepcopy / pickle / dataclasses.asdict of an entity holding the value raise AttributeError",
+                  file=b["file"], line=b["line"])
+    rep.count(R_B, 1, instance="scan")
     # generator template
     from ..gen import class_template_options
     R_G = rep.rule("C15-generator", "the generator's class template carries frozen=True, slots=True", floor=1)
